@@ -19,7 +19,7 @@ MC_INV = {
 T_MON = {
     "C03": ["M_ReadIsSnapshot", "M_MoreFlag", "M_CountIsSnapshot", "M_StreamIsSnapshot", "M_ReadableServed", "M_HeaderCoversData"],
     "C08": ["M_FloorMonotone", "M_FloorAccepted", "M_BelowFloorRefused", "M_CompactClampCommitted"],
-    "C13": ["M_ReadIsSnapshot", "M_CountIsSnapshot", "M_StreamIsSnapshot", "M_StreamOneTerminator", "M_StreamBatchRevision", "M_PartitionsCoverOnce"],
+    "C13": ["M_ReadIsSnapshot", "M_CountIsSnapshot", "M_StreamIsSnapshot", "M_StreamOneTerminator", "M_StreamBatchRevision"],
     "C12": ["M_EnginesAgree"],
 }
 KNOWN_MON = {"C03": ["M_TombValueReadable"]}
@@ -92,6 +92,15 @@ def known_or_violation(prop, seed, v):
     return 1
 
 
+PROP_GEN = {
+    "C03": dict(),
+    "C12": dict(),
+    "C08": dict(CompactKinds={"zero", "cur", "cur-1", "cur-2", "old", "above"}, ExpKinds={"zero", "cur", "stale"}),
+    "C13": dict(OpKinds={"create", "update", "delete"}, ExpKinds={"zero", "cur", "stale"}),
+}
+PROP_CMD = {"C13": "partrun"}
+
+
 def check_seq(prop, tier, seed):
     t0 = time.time()
     work = Work(prop)
@@ -102,9 +111,10 @@ def check_seq(prop, tier, seed):
                    distinct_nontrivial=0, mc_runs=[], replay=[], exhaustive=False, known_findings=[])
         quick = tier == "quick"
         # ---- 1. TLC: the transcribed scanner against the MVCC reference over all bounded histories
-        mcs = [("2 keys, histories of 5 requests", dict(SEQ_CONSTS, MaxOps=5 if quick else 6))]
+        G = PROP_GEN[prop]
+        mcs = [("2 keys, histories of 5 requests", dict(SEQ_CONSTS, MaxOps=5 if quick else 6, **G))]
         if not quick:
-            mcs.append(("3 keys, histories of 4 requests", dict(SEQ_CONSTS, Keys={1, 2, 3}, MaxOps=4)))
+            mcs.append(("3 keys, histories of 4 requests", dict(SEQ_CONSTS, Keys={1, 2, 3}, MaxOps=4, **G)))
         if prop == "C12":
             mcs = []
         for title, consts in mcs:
@@ -135,16 +145,19 @@ def check_seq(prop, tier, seed):
             log("MC KubeBrain single writer: %d client-visible outcomes, identical under both engine parameters" % len(outs[0]))
         # ---- 2. histories generated from KBSeq, run on every engine
         n = 160 if quick else 2000
-        plain = seq_gen(work, dict(SEQ_CONSTS, MaxOps=5 if quick else 7), seed, n)
-        star = seq_gen(work, dict(SEQ_CONSTS, MaxOps=4, Vals={"x", "tombstone*"}, OpKinds={"create", "update", "delete"}), seed + 1, n // 4, name="genstar")
-        three = seq_gen(work, dict(SEQ_CONSTS, Keys={1, 2, 3}, MaxOps=5), seed + 2, n // 4, name="gen3")
+        if prop == "C13":
+            n = 48 if quick else 600
+        plain = seq_gen(work, dict(SEQ_CONSTS, MaxOps=5 if quick else 7, **G), seed, n)
+        star = seq_gen(work, dict(SEQ_CONSTS, MaxOps=4, Vals={"x", "tombstone*"}, OpKinds={"create", "update", "delete"}), seed + 1, n // 4, name="genstar") if prop == "C03" else []
+        three = seq_gen(work, dict(SEQ_CONSTS, Keys={1, 2, 3}, MaxOps=5, **G), seed + 2, n // 4, name="gen3")
         engines = "memkv,badger,tikv,metrics"
         flags = ["-seed", str(seed), "-frac", "0.02" if quick else "0.1", "-finalfrac", "0.25" if quick else "1.0"]
         alltraces, allagree = [], []
         for title, behs in (("2 keys", plain), ("3 keys", three), ("values equal to the deletion marker", star)):
-            if prop == "C12" and title.startswith("values"):
+            if not behs:
                 continue
-            rep, traces, agrees = seqrun(work, binp, behs, engines, 16, flags, agree=(prop == "C12"))
+            rep, traces, agrees = seqrun(work, binp, behs, engines, 16, flags if prop != "C13" else ["-seed", str(seed), "-sets", "30" if quick else "120"],
+                                         agree=(prop == "C12"), cmd=PROP_CMD.get(prop, "seqrun"))
             cov["evaluations"] += rep.get("behaviours", 0)
             cov["distinct_nontrivial"] += rep.get("nontrivial", 0)
             cov["replay"].append(dict(histories=title, engines=engines, behaviours=rep.get("behaviours", 0), agreed_with_spec=rep.get("agreed", 0),
@@ -191,4 +204,4 @@ def check_seq(prop, tier, seed):
         work.cleanup()
 
 
-REGISTRY = {"C03": check_seq, "C12": check_seq}
+REGISTRY = {"C03": check_seq, "C12": check_seq, "C08": check_seq, "C13": check_seq}
